@@ -12,10 +12,13 @@ VERIF = os.path.dirname(os.path.dirname(os.path.abspath(__file__)))
 REPO = os.environ.get("VERIF_REPO", "/repo")  # the tree the change is applied to (default: /repo itself)
 
 
-def sh(cmd, cwd=REPO, env=None, timeout=900):
+def sh(cmd, cwd=REPO, env=None, timeout=1800):
     e = dict(os.environ)
     e.update(env or {})
-    p = subprocess.run(cmd, shell=True, cwd=cwd, capture_output=True, text=True, env=e, timeout=timeout)
+    try:
+        p = subprocess.run(cmd, shell=True, cwd=cwd, capture_output=True, text=True, env=e, timeout=timeout)
+    except subprocess.TimeoutExpired as ex:
+        return 124, "CHECKER-ERROR timeout: " + cmd + "\n" + ((ex.stdout or b"").decode("utf8", "replace") if isinstance(ex.stdout, bytes) else (ex.stdout or ""))
     return p.returncode, (p.stdout + p.stderr)
 
 
